@@ -441,6 +441,42 @@ def c01_monitor(s, a, rt):
 
 
 
+def split_top(text):
+    """elements of the `repr` of a list (blanks removed), split at top-level commas; None if `text` is not a list"""
+    if len(text) < 2 or text[0] != "[" or text[-1] != "]":
+        return None
+    out, depth, cur, q = [], 0, "", None
+    body = text[1:-1]
+    i = 0
+    while i < len(body):
+        ch = body[i]
+        if q:
+            cur += ch
+            if ch == "\\" and i + 1 < len(body):
+                cur += body[i + 1]
+                i += 1
+            elif ch == q:
+                q = None
+        elif ch in "'\"":
+            q = ch
+            cur += ch
+        elif ch in "([{":
+            depth += 1
+            cur += ch
+        elif ch in ")]}":
+            depth -= 1
+            cur += ch
+        elif ch == "," and depth == 0:
+            out.append(cur)
+            cur = ""
+        else:
+            cur += ch
+        i += 1
+    if cur or body:
+        out.append(cur)
+    return out
+
+
 def c14_monitor(s, a, rt):
     """C14 Spec on the implementation's observation: for an external send that issued no nested
     send and did not raise, the returned value is unwrap(before returns ++ on returns) of the
@@ -470,13 +506,10 @@ def c14_monitor(s, a, rt):
             elif len(rets) == 1:
                 exp_ok = got == rets[0]
             else:
-                try:
-                    val = ast.literal_eval(got)
-                except Exception:
-                    val = None
-                exp_ok = (isinstance(val, list) and len(val) == len(rets)
-                          and sorted(map(eng.rp, val[:len(bef)])) == sorted(bef)
-                          and sorted(map(eng.rp, val[len(bef):])) == sorted(on))
+                val = split_top(got)
+                exp_ok = (val is not None and len(val) == len(rets)
+                          and sorted(val[:len(bef)]) == sorted(bef)
+                          and sorted(val[len(bef):]) == sorted(on))
         if not exp_ok:
             fails.append(f"C14: op {i} returned {got}; before returns {bef}, on returns {on}, fired={fired}")
     return fails
@@ -583,13 +616,13 @@ def fault_variants(max_faults):
             c = copy.deepcopy(base)
             c.name = f"{s.name}-f{k}"
             old = next((a for a in c.acts if a[0] == cb and a[1] <= tid <= a[2]), None)
-            c.acts.insert(0, (cb, tid, tid, 0, rng.randint(1, 9), list(old[5]) if old else []))
+            c.acts.insert(0, (cb, tid, tid, 0, rng.randint(1, 17), list(old[5]) if old else []))
             # two failures in a row: sometimes add a second fault later
             if rng.random() < 0.25:
                 later = [x for x in pos if x[1] > tid]
                 if later:
                     cb2, tid2, _ = rng.choice(later)
-                    c.acts.insert(0, (cb2, tid2, tid2, 0, rng.randint(1, 9), []))
+                    c.acts.insert(0, (cb2, tid2, tid2, 0, rng.randint(1, 17), []))
             # make sure something is sent after the failure
             evs = sorted({e for t in c.trans for e in t.events})
             c.ops = list(c.ops) + [("send", rng.choice(evs)), ("send", rng.choice(evs))]
